@@ -201,7 +201,9 @@ where
 
         Ok(Some((
             row.total_operation_count,
-            row.total_header_bytes + row.total_payload_bytes,
+            // Both sums can be close to the maximum on their own, never overflow the total.
+            row.total_header_bytes
+                .saturating_add(row.total_payload_bytes),
         )))
     }
 
